@@ -7,7 +7,7 @@ From Coq Require Import List Arith ZArith Bool.
 Import ListNotations.
 From Acts.Gen Require Import GenState.
 From Acts.Model Require Import Engine Multi.
-From Acts.Proofs Require Import MultiProofs.
+From Acts.Proofs Require Import MultiProofs C02Core C02Ops FinalProofs.
 
 Theorem C15_accepted_observation :
   forall o, call_check o = [] -> co_missing o = false ->
@@ -26,6 +26,19 @@ Proof. exact call_check_sound. Qed.
 Theorem C15_forced_close_stays_single :
   forall o, forced_check o = [] -> co_inputs_ok o = true /\ exists x, co_act_ends o = [x].
 Proof. exact forced_check_sound. Qed.
+(* the engine side of the return, for every reachable state of the calling process (J e is the engine invariant every
+   run satisfies): when the child ended without error and its return -- a client action on the calling act: next, abort
+   or skip according to the child's ending (runtime.rs return_to_act) -- is admitted, the calling act takes the state
+   the ending maps to and keeps it whatever happens next, and every later action on it but cancel, a second return
+   included, is rejected: the act is closed exactly once *)
+Theorem C15_return_closes_the_act_for_good :
+  forall e i s code opts cv a' ops b opts',
+    J e -> s <> SError -> admission e i (return_action s code) opts = Some (cv, a') -> is_cancel b = false ->
+    let e1 := fold_left apply_op ops (do_action e i (return_action s code) opts) in
+    st e1 i = return_end s /\ do_action e1 i b opts' = ret_err e1.
+Proof. exact return_closes_for_good. Qed.
+Theorem C15_return_end_is_the_mapping : forall s, return_end s = return_state s.
+Proof. destruct s; reflexivity. Qed.
 Theorem C15_missing_model_fails_the_act : forall o, call_check o = [] -> co_missing o = true -> co_act_open o = false.
 Proof. exact call_check_missing. Qed.
 (* expected_end is the return mapping, except that a return the calling act cannot take (a declared
@@ -48,6 +61,8 @@ Proof. vm_compute. auto. Qed.
 
 Print Assumptions C15_accepted_observation.
 Print Assumptions C15_forced_close_stays_single.
+Print Assumptions C15_return_closes_the_act_for_good.
+Print Assumptions C15_return_end_is_the_mapping.
 Print Assumptions C15_missing_model_fails_the_act.
 Print Assumptions C15_return_mapping.
 Print Assumptions C15_expected_end.
